@@ -53,7 +53,7 @@ let do_load bits prec pf bu maxpix hex =
      | FBmp, Some _ ->
        let want = if pf < 0 then None else layout_of_pf (z_of_int pf) in
        let mp = z_of_int maxpix in
-       let huge = (match bmp_header mp want bytes with
+       let huge = (match bmp_header false mp want bytes with
                    | BOk (hd, _) -> int_of_z hd.b_w * int_of_z hd.b_h > 16777216 || int_of_z hd.b_w > 4194304
                    | BErr _ -> false) in
        if huge then print_endline "skip huge" else
